@@ -1401,3 +1401,80 @@ theorem W_init (s mid mx now0 : Nat) (sess : List Sess) (h : ∀ se ∈ sess, Se
   rw [this]; rfl
 
 end Coap.Sched
+
+/-! ### counting the distinct retransmission numbers of a message -/
+namespace Coap.Sched
+open Coap Coap.SQ Coap.Msg Coap.Timer Coap.Sim
+
+/-- the retransmission numbers of the Confirmable (s, mid) transmitted so far -/
+def txKs (s mid : Nat) : List Out → List Nat
+  | [] => []
+  | o :: r => (match o with
+      | .tx _ s' m' k true => if s' = s ∧ m' = mid then [k] else []
+      | _ => []) ++ txKs s mid r
+
+theorem txKs_length (s mid : Nat) (out : List Out) : (txKs s mid out).length = txC s mid out := by
+  induction out with
+  | nil => rfl
+  | cons o r ih =>
+    cases o with
+    | tx t s' m' k c =>
+      cases c with
+      | true => by_cases h : s' = s ∧ m' = mid <;> simp [txKs, txC, h, ih] <;> omega
+      | false => simp [txKs, txC, ih]
+    | _ => simp [txKs, txC, ih]
+
+theorem mem_txKs {s mid : Nat} {out : List Out} {t k : Nat} (h : Out.tx t s mid k true ∈ out) : k ∈ txKs s mid out := by
+  induction out with
+  | nil => cases h
+  | cons o r ih =>
+    simp only [List.mem_cons] at h
+    rcases h with rfl | h
+    · simp [txKs]
+    · simp only [txKs, List.mem_append]
+      exact Or.inr (ih h)
+
+/-- if transmissions number 0 … c of (s, mid) have all been made, at least c + 1 transmissions have been made -/
+theorem txC_ge (s mid c : Nat) (out : List Out) (f : Nat → Nat)
+    (h : ∀ j, j ≤ c → Out.tx (f j) s mid j true ∈ out) : c + 1 ≤ txC s mid out := by
+  rw [← txKs_length]
+  have hsub : List.range (c + 1) ⊆ txKs s mid out := by
+    intro j hj
+    exact mem_txKs (h j (by simpa [Nat.lt_succ_iff] using hj))
+  have := List.Nodup.length_le_of_subset List.nodup_range hsub
+  simpa using this
+
+theorem mem_absP_of_mem (mx : Nat → Nat) (b : Nat) (l : List Node) (n : Node) (h : n ∈ l) :
+    ∃ d, (d, toP mx n) ∈ absP mx b l := by
+  induction l generalizing b with
+  | nil => cases h
+  | cons a r ih =>
+    simp only [List.mem_cons] at h
+    rcases h with rfl | h
+    · exact ⟨b + n.t, by simp [absP]⟩
+    · obtain ⟨d, hd⟩ := ih (b + a.t) h
+      exact ⟨d, by simp [absP, hd]⟩
+
+theorem pendC_pos_mem (s mid : Nat) (l : List Node) (n : Node) (h : n ∈ l) (hs : n.sess = s) (hm : n.mid = mid) :
+    1 ≤ pendC s mid l := by
+  induction l with
+  | nil => cases h
+  | cons a r ih =>
+    simp only [List.mem_cons] at h
+    rcases h with rfl | h
+    · simp [pendC, hs, hm]
+    · have := ih h
+      simp only [pendC]; omega
+
+theorem budC_ge_mem (s mid mx : Nat) (l : List Node) (n : Node) (h : n ∈ l) (hs : n.sess = s) (hm : n.mid = mid) :
+    mx - n.cnt ≤ budC s mid mx l := by
+  induction l with
+  | nil => cases h
+  | cons a r ih =>
+    simp only [List.mem_cons] at h
+    rcases h with rfl | h
+    · simp [budC, hs, hm]
+    · have := ih h
+      simp only [budC]; omega
+
+end Coap.Sched
